@@ -261,8 +261,8 @@ example : emptyW ⟨[0], [2], [(0, 5, 1), (2, 5, 2)]⟩ 10 = some true ∧
 * **`GetCandidateTree`.**  The model scans the start states in list order (the C++ scans a hash set), so which final
   state is found first may differ; the two guarantees of `C10_witness` hold for the model whatever the order of the
   list, but "the model returns the same automaton as the code" is not claimed.
-* No totality theorem for the reference checkers `isUnionW`, `isIsectW`, `equivW`, `emptyW` (`none` on too little
-  fuel; every `some` is exact).  `nfaIntersection` is total only in the form "the fuel `(nfaJointAll A B).length`
-  suffices".
+* The reference checkers `isUnionW`, `isIsectW`, `equivW`, `emptyW` are total above the explicit bounds `fuelBoundW […]`
+  (`C10_reference_total` in `Vata/Properties/RefTotal.lean`; exponential worst-case bounds, not tight).
+  `nfaIntersection` is total only in the form "the fuel `(nfaJointAll A B).length` suffices".
 -/
 end Vata.Props
